@@ -391,6 +391,11 @@ def result_checked(body, cs, depth=0):
 
 # ---- FromValue siblings: downcast first, then parse the value's text form ---------------------------------------
 
+def _rp1(P, body, o):
+    """Does the origin derive (through identity-like calls) from parameter 1 of the outermost function?"""
+    return derives_from_root_param(P, body, o, 1, through=("to_str", "by_ref", "borrow", "as_ref", "deref", "get", "clone", "into", "to_cow_str", "to_borrowed_str"))
+
+
 def fromvalue_rule(chk, P, prefix, types):
     """Every `impl FromValue for <well-known type>` is `downcast_ref::<Self>()` first and falls back to
     `Value::parse` (which renders *any* value - Display-captured, buffered, owned - to text and parses it)."""
@@ -407,7 +412,7 @@ def fromvalue_rule(chk, P, prefix, types):
             pr = [c for x in bodies for c in x.calls(normal_only=True)
                   if ((c.callee.get("path") or "").startswith("emit_core::value::Value") and c.callee.get("name") == "parse")
                   or (c.callee.get("name") in ("try_from_hex", "try_from_str") and c.args and
-                      (("param", 1) in roots(x.origin(c.args[0])) or any(k == "capture" and v == "value" for k, v in roots(x.origin(c.args[0])))))]
+                      (("param", 1) in roots(x.origin(c.args[0])) and not x.is_closure or _rp1(P, x, x.origin(c.args[0]))))]
             if not dc:
                 return False, "%s::from_value does not try the typed value first (downcast_ref)" % ty, [], b.span
             if not pr:
@@ -419,7 +424,7 @@ def fromvalue_rule(chk, P, prefix, types):
             for c in pr:
                 o = c.body.origin(c.args[0])
                 rr = roots(o)
-                if not (("param", 1) in rr or any(k == "capture" and v == "value" for k, v in rr)):
+                if not ((("param", 1) in rr and not c.body.is_closure) or _rp1(P, c.body, o)):
                     return False, "Value::parse is applied to %s, not the value being cast" % mir.o_str(o), [], c.loc
             return True, "", [dc[0].loc, pr[0].loc]
         chk.ob("%s.FromValue:%s" % (prefix, ty), "casting a property value to the typed form tries the typed value, then parses its text form", f)
@@ -685,3 +690,63 @@ def level_parser_table(chk, P, prefix):
             return False, "expected the six accepted names (INFORMATION, DEBUG, DBG, ERROR, WARNING, WRN), found %d parse calls" % n, [], b.span
         return True, "", [b.span]
     chk.ob("%s.parser-table:Level::from_str" % prefix, "each accepted level name is parsed to the level whose initial it carries", g)
+
+
+def root_param(P, body, o, depth=0):
+    """If an origin is a parameter of the outermost enclosing function - directly or captured through any number of nested
+    closures / async blocks - its index, else None.  Lets rules identify `the visitor`, `the key`, `the value being cast` by
+    position in the (trait-mandated) signature instead of by what an impl happens to call the parameter."""
+    while depth < 8:
+        depth += 1
+        if o[0] in ("field", "downcast", "index", "cast"):
+            o = o[1]
+            continue
+        if o[0] == "param":
+            return None if body.is_closure else o[1]
+        if o[0] == "capture":
+            po = P.capture_origin(body, o)
+            par = P.bodies.get(body.parent_key)
+            if par is None:
+                return None
+            body, o = par, po
+            continue
+        return None
+    return None
+
+
+def capture_source(P, body, o):
+    """The provenance, in the enclosing body, of a captured value (identity for non-captures)."""
+    d = 0
+    while o[0] == "capture" and d < 6:
+        d += 1
+        po = P.capture_origin(body, o)
+        par = P.bodies.get(body.parent_key)
+        if par is None:
+            return po, body
+        body, o = par, po
+    return o, body
+
+
+def derives_from_root_param(P, body, o, idx, through=("to_str", "by_ref", "borrow", "as_ref", "deref", "get", "to_event", "clone", "into")):
+    """True if the origin is parameter `idx` of the outermost enclosing function, possibly captured through nested closures and
+    passed through identity-like calls on the way (at any level)."""
+    d = 0
+    while d < 16:
+        d += 1
+        if o[0] in ("field", "downcast", "index", "cast"):
+            o = o[1]
+            continue
+        if o[0] == "param":
+            return (not body.is_closure) and o[1] == idx
+        if o[0] == "capture":
+            po = P.capture_origin(body, o)
+            par = P.bodies.get(body.parent_key)
+            if par is None:
+                return False
+            body, o = par, po
+            continue
+        if o[0] == "call" and o[1].callee.get("name") in through and o[1].args:
+            o = body.origin(o[1].args[0])
+            continue
+        return False
+    return False
